@@ -285,6 +285,7 @@ pub fn run_phase(ph: &Phase, cfg: &Config) -> PhaseReport {
                 let mut viol: Option<(usize, Violation)> = None;
                 let mut suspect: Option<(usize, Violation)> = None;
                 let mut suspects_checked = 0;
+                let mut all_suspect = true;
                 let mut known: Known = BTreeMap::new();
                 loop {
                     let it = next.fetch_add(1, Ordering::SeqCst);
@@ -337,9 +338,15 @@ pub fn run_phase(ph: &Phase, cfg: &Config) -> PhaseReport {
                                 // before it (hidden state): remember it as a suspect and keep exploring; the call-order pass below
                                 // re-derives it as a deterministic two-call sequence
                                 let ch = cx.choices();
-                                let alone_ok = suspects_checked < 4 && {
+                                // (the fresh-thread test is made for the first few failures of a worker; once they all turned out to be
+                                // history-dependent, later failures of the same worker are taken to be of the same kind)
+                                let alone_ok = if suspects_checked < 4 {
                                     suspects_checked += 1;
-                                    std::thread::scope(|s2| s2.spawn(|| run_single_q(ph, unit, &ch, cfg.thorough, cfg.seed).0.is_ok()).join().unwrap_or(false))
+                                    let ok = std::thread::scope(|s2| s2.spawn(|| run_single_q(ph, unit, &ch, cfg.thorough, cfg.seed).0.is_ok()).join().unwrap_or(false));
+                                    all_suspect &= ok;
+                                    ok
+                                } else {
+                                    all_suspect
                                 };
                                 if alone_ok {
                                     let mut f = f;
@@ -454,36 +461,58 @@ pub fn run_phase(ph: &Phase, cfg: &Config) -> PhaseReport {
                 s.spawn(|| loop {
                     let i = nexti.fetch_add(1, Ordering::SeqCst);
                     // rows are handed out in increasing order: a row beyond the best failing row so far cannot improve on it
-                    if i >= picked.len() || found.lock().unwrap().as_ref().map_or(false, |(k, _)| i > *k / picked.len()) {
+                    if i >= picked.len() || found.lock().unwrap().as_ref().map_or(false, |(k, _)| *k < picked.len() * picked.len() && i > *k / picked.len()) {
                         break;
                     }
-                    for j in 0..picked.len() {
-                        // each two-call sequence runs in a thread of its own, so that thread-local state left behind by earlier
-                        // sequences cannot leak into it and the pair (i, j) is self-contained (replayable)
-                        let v2 = std::thread::scope(|s2| {
-                            std::thread::Builder::new()
-                                .stack_size(1 << 19)
-                                .spawn_scoped(s2, || {
+                    // one fresh thread per row i; inside it every j is run as "i then j". State left behind by earlier sequences of the
+                    // row could leak into later ones, so a failing (i, j) is confirmed in a thread of its own before it is reported:
+                    // the reported pair is self-contained (replayable).
+                    let row = std::thread::scope(|s2| {
+                        std::thread::Builder::new()
+                            .stack_size(1 << 20)
+                            .spawn_scoped(s2, || {
+                                let mut unconfirmed: Option<(usize, Fail)> = None;
+                                for j in 0..picked.len() {
                                     let _ = run_single_q(ph, picked[i].0, &picked[i].1, cfg.thorough, cfg.seed);
-                                    run_single_q(ph, picked[j].0, &picked[j].1, cfg.thorough, cfg.seed).0
-                                })
-                                .expect("spawn")
-                                .join()
-                                .unwrap_or_else(|_| Err(Fail::new("harness thread panicked in the call-order pass", Value::Null)))
-                        });
-                        pairs.fetch_add(1, Ordering::Relaxed);
-                        if let Err(f) = v2 {
-                            let is_known = f.finding.map_or(false, |k| cfg.known.iter().any(|x| x == k));
-                            if !is_known {
-                                let mut g = found.lock().unwrap();
-                                let key = i * picked.len() + j;
-                                if g.as_ref().map_or(true, |(k, _)| key < *k) {
-                                    let mut f = f;
-                                    f.what = format!("{} [in the call-order pass: only after another call on the same thread]", f.what);
-                                    *g = Some((key, Violation { phase: ph.name, unit: picked[j].0, choices: picked[j].1.clone(), fail: f, preceded_by: Some(picked[i].clone()) }));
+                                    let v2 = run_single_q(ph, picked[j].0, &picked[j].1, cfg.thorough, cfg.seed).0;
+                                    pairs.fetch_add(1, Ordering::Relaxed);
+                                    if let Err(f) = v2 {
+                                        if f.finding.map_or(false, |k| cfg.known.iter().any(|x| x == k)) {
+                                            continue;
+                                        }
+                                        let confirmed = std::thread::scope(|s3| {
+                                            s3.spawn(|| {
+                                                let _ = run_single_q(ph, picked[i].0, &picked[i].1, cfg.thorough, cfg.seed);
+                                                run_single_q(ph, picked[j].0, &picked[j].1, cfg.thorough, cfg.seed).0.is_err()
+                                            })
+                                            .join()
+                                            .unwrap_or(false)
+                                        });
+                                        if confirmed {
+                                            return (Some((j, f)), unconfirmed);
+                                        } else if unconfirmed.is_none() {
+                                            unconfirmed = Some((j, f));
+                                        }
+                                    }
                                 }
-                                break;
-                            }
+                                (None, unconfirmed)
+                            })
+                            .expect("spawn")
+                            .join()
+                            .unwrap_or((None, None))
+                    });
+                    let (hit, confirmed) = match row {
+                        (Some(h), _) => (Some(h), true),
+                        (None, Some(h)) => (Some(h), false),
+                        _ => (None, false),
+                    };
+                    if let Some((j, mut f)) = hit {
+                        let mut g = found.lock().unwrap();
+                        // confirmed pairs take precedence over unconfirmed ones; among equals the smallest (i, j)
+                        let key = i * picked.len() + j + if confirmed { 0 } else { picked.len() * picked.len() };
+                        if g.as_ref().map_or(true, |(k, _)| key < *k) {
+                            f.what = format!("{} [in the call-order pass: only after another call on the same thread{}]", f.what, if confirmed { "" } else { "; NOT reproduced by the two calls alone" });
+                            *g = Some((key, Violation { phase: ph.name, unit: picked[j].0, choices: picked[j].1.clone(), fail: f, preceded_by: Some(picked[i].clone()) }));
                         }
                     }
                 });
@@ -596,7 +625,7 @@ pub fn run_check(chk: Check, thorough: bool, seed: u64, extra_violation: Option<
         threads: std::env::var("VERIF_THREADS").ok().and_then(|s| s.parse().ok()).unwrap_or(16),
         cap_s: std::env::var("VERIF_CAP_S").ok().and_then(|s| s.parse().ok()).unwrap_or(if thorough { 3000.0 } else { 600.0 }),
         known: known_keys,
-        order_reps: std::env::var("VERIF_ORDER_REPS").ok().and_then(|s| s.parse().ok()).unwrap_or(if thorough { 192 } else { 64 }),
+        order_reps: std::env::var("VERIF_ORDER_REPS").ok().and_then(|s| s.parse().ok()).unwrap_or(if thorough { 320 } else { 128 }),
     };
     let mut reports = vec![];
     for ph in &chk.phases {
